@@ -251,9 +251,10 @@ Definition ring_get (s : ringst) : ringst * option msg :=
 
 Definition ring_len (s : ringst) : Z := if renq s <=? rdeq s then 0 else renq s - rdeq s.
 
-Definition nbb_model (cap : Z) : mbmodel :=
-  {| mstate := ringst; minit := ring_init (nextPowerOfTwo cap); menq := ring_put; mdeq := ring_get;
+Definition ring_model (size : Z) : mbmodel :=
+  {| mstate := ringst; minit := ring_init size; menq := ring_put; mdeq := ring_get;
      mlen := ring_len; mempty := fun s => ring_len s =? 0 |}.
+Definition nbb_model (cap : Z) : mbmodel := ring_model (nextPowerOfTwo cap).
 
 (* BoundedMailbox over the Workiva ring (with the repair of fixes/C04-bounded-capacity-one.diff:
    at least two cells).  Put on a full ring blocks (result 2, the message waits in [rpend]);
